@@ -405,7 +405,7 @@ fn is_breakable_container(term: &Term) -> bool {
 fn term_doc(trivia: &Trivia, term: &Term) -> Doc {
     match term {
         Term::Tuple(tuple) => tuple_doc(trivia, tuple),
-        Term::String(style, segments) => string_term_doc(trivia, *style, segments),
+        Term::String(style, segments) => string_term_doc(*style, segments),
         Term::Block(expression) => block_doc(trivia, expression),
         Term::Function(function) => function_doc(trivia, function),
         Term::Spawn(inner, _) => spawn_doc(trivia, inner),
@@ -435,16 +435,16 @@ fn render_term_atom(term: &Term) -> String {
 
 /// Render a string-literal term in its original delimiter style: a single-line `"…"` (with
 /// interpolation holes), or a multi-line `"""…"""` block (text only).
-fn string_term_doc(trivia: &Trivia, style: StringStyle, segments: &[StrSegment]) -> Doc {
+fn string_term_doc(style: StringStyle, segments: &[StrSegment]) -> Doc {
     match style {
-        StringStyle::Single => single_line_string_doc(trivia, segments),
-        StringStyle::Multi => multiline_string_doc(trivia, segments),
+        StringStyle::Single => single_line_string_doc(segments),
+        StringStyle::Multi => multiline_string_doc(segments),
     }
 }
 
 /// Render a single-line string `"…"`: literal-text segments are re-escaped, and each interpolation
 /// hole is rendered flat (single-line strings stay on one line) as a tightly-braced expression.
-fn single_line_string_doc(trivia: &Trivia, segments: &[StrSegment]) -> Doc {
+fn single_line_string_doc(segments: &[StrSegment]) -> Doc {
     let mut out = String::from("\"");
     for segment in segments {
         match segment {
@@ -452,23 +452,28 @@ fn single_line_string_doc(trivia: &Trivia, segments: &[StrSegment]) -> Doc {
                 let text = std::str::from_utf8(bytes).expect("string text is UTF-8");
                 out.push_str(&escape_single_line_text(text));
             }
-            // A hole parses like a block body. Render its branches flat (single-line strings stay
-            // on one line) and wrap them tightly in braces — `{name}`, not `{ name }`.
-            StrSegment::Hole(expression) => {
-                let body = expression
-                    .branches
-                    .iter()
-                    .map(|branch| pretty::flatten(&branch_doc(trivia, branch, false)))
-                    .collect::<Vec<_>>()
-                    .join(" | ");
-                out.push('{');
-                out.push_str(&body);
-                out.push('}');
-            }
+            // A hole parses like a block body, and is wrapped tightly in braces — `{name}`, not
+            // `{ name }`.
+            StrSegment::Hole(expression) => out.push_str(&render_hole(expression)),
         }
     }
     out.push('"');
     pretty::text(out)
+}
+
+/// Render an interpolation hole `{…}`: its branches flat, tightly braced. A hole stays on its line,
+/// so it cannot carry comments or blank lines, and it is rendered without trivia: the scanner hands
+/// a comment written inside a hole to a node outside the string. (The chains of a hole in a `"""`
+/// string could not be looked up anyway: their offsets are relative to the hole, not to the file.)
+fn render_hole(expression: &Expression) -> String {
+    let trivia = Trivia::default();
+    let body = expression
+        .branches
+        .iter()
+        .map(|branch| pretty::flatten(&branch_doc(&trivia, branch, false)))
+        .collect::<Vec<_>>()
+        .join(" | ");
+    format!("{{{}}}", body)
 }
 
 /// Escape literal text of a single-line string. As well as the basic escapes, `{` is escaped (a bare
@@ -518,7 +523,7 @@ fn tuple_doc(trivia: &Trivia, tuple: &Tuple) -> Doc {
 /// *margin*, which the parser strips back off, so the value round-trips at any nesting depth.
 /// Interpolation holes sit inline on their line as `{…}`; a newline inside a text segment starts a
 /// new line.
-fn multiline_string_doc(trivia: &Trivia, segments: &[StrSegment]) -> Doc {
+fn multiline_string_doc(segments: &[StrSegment]) -> Doc {
     // Build the content line by line, escaping text and rendering holes inline.
     let mut lines = vec![String::new()];
     for segment in segments {
@@ -537,16 +542,7 @@ fn multiline_string_doc(trivia: &Trivia, segments: &[StrSegment]) -> Doc {
                 }
             }
             StrSegment::Hole(expression) => {
-                let body = expression
-                    .branches
-                    .iter()
-                    .map(|branch| pretty::flatten(&branch_doc(trivia, branch, false)))
-                    .collect::<Vec<_>>()
-                    .join(" | ");
-                let line = lines.last_mut().unwrap();
-                line.push('{');
-                line.push_str(&body);
-                line.push('}');
+                lines.last_mut().unwrap().push_str(&render_hole(expression));
             }
         }
     }
@@ -757,6 +753,9 @@ enum Scanned {
         offset: usize,
         text: String,
         trailing: bool,
+        /// Set when the comment is written inside an interpolation hole of a string. A hole is
+        /// rendered on one line, so the comment moves out: it leads the node the string is part of.
+        in_hole: bool,
     },
 }
 
@@ -769,6 +768,7 @@ struct Anchor {
 /// Comments and blank lines recovered from the source. `leading` and `trailing` are keyed by the
 /// start offset of the AST node (type-alias statement, chain, or tuple field) they attach to;
 /// `dangling` holds anything after the last node.
+#[derive(Default)]
 struct Trivia {
     leading: HashMap<usize, Vec<TriviaItem>>,
     trailing: HashMap<usize, Vec<String>>,
@@ -800,7 +800,12 @@ impl Trivia {
             let index = by_end.partition_point(|&(end, _)| end <= offset);
             index.checked_sub(1).map(|i| by_end[i].1)
         };
-        for item in scan_trivia(source) {
+        // The innermost node around a comment that is inside a string (rare: a linear search).
+        let enclosing = |offset: usize| {
+            let inside = |anchor: &&Anchor| anchor.start <= offset && offset < anchor.end;
+            anchors.iter().rev().find(inside).map(|anchor| anchor.start)
+        };
+        for item in scan_trivia(source, &string_kinds(program)) {
             match item {
                 Scanned::Blank(offset) => match following(offset) {
                     Some(anchor) => leading.entry(anchor).or_default().push(TriviaItem::Blank),
@@ -809,7 +814,20 @@ impl Trivia {
                 Scanned::Comment {
                     offset,
                     text,
+                    in_hole: true,
+                    ..
+                } => match enclosing(offset) {
+                    Some(anchor) => leading
+                        .entry(anchor)
+                        .or_default()
+                        .push(TriviaItem::Comment(text)),
+                    None => dangling.push(TriviaItem::Comment(text)),
+                },
+                Scanned::Comment {
+                    offset,
+                    text,
                     trailing: true,
+                    ..
                 } => match preceding(offset) {
                     Some(anchor) => trailing.entry(anchor).or_default().push(text),
                     None => dangling.push(TriviaItem::Comment(text)),
@@ -818,6 +836,7 @@ impl Trivia {
                     offset,
                     text,
                     trailing: false,
+                    ..
                 } => match following(offset) {
                     Some(anchor) => leading
                         .entry(anchor)
@@ -885,22 +904,45 @@ fn trivia_doc(items: &[TriviaItem]) -> Doc {
     pretty::concat(parts)
 }
 
+/// A string literal the scanner is inside of.
+struct OpenString {
+    /// Delimited by `"""` rather than `"`.
+    multi: bool,
+    /// Whether an unescaped `{` opens an interpolation hole (a string term) or is text (a pattern).
+    interpolated: bool,
+    /// `Some` while scanning the code of one of its holes: the number of braces open inside the hole.
+    hole_depth: Option<usize>,
+}
+
 /// Scan `source` for line comments and blank lines in source order, marking a comment as `trailing`
 /// when code precedes it on its line. String-aware so a `//` or blank line inside a `"…"` literal is
-/// not mistaken for trivia.
-fn scan_trivia(source: &str) -> Vec<Scanned> {
+/// not mistaken for trivia, and interpolation-aware so the code of a hole `{…}` is scanned as code
+/// again (it can hold strings and comments of its own). `interpolated` is [`string_kinds`]: which of
+/// the literals, in source order, have holes at all. A comment inside a hole is reported (marked
+/// `in_hole`); a blank line inside a hole is not, as there is no line to put it on.
+fn scan_trivia(source: &str, interpolated: &[bool]) -> Vec<Scanned> {
     let mut out = Vec::new();
     let mut chars = source.char_indices().peekable();
-    let mut in_string = false;
+    let mut interpolated = interpolated.iter().copied();
+    // The literals being scanned, innermost last: each but the last is in one of its holes.
+    let mut open: Vec<OpenString> = Vec::new();
     let mut escaped = false;
     let mut line_start = 0usize;
     let mut line_blank = true;
     while let Some((index, c)) = chars.next() {
-        if in_string {
+        let triple_quote = c == '"' && source[index..].starts_with("\"\"\"");
+        if let Some(string) = open.last_mut().filter(|string| string.hole_depth.is_none()) {
             match c {
                 _ if escaped => escaped = false,
                 '\\' => escaped = true,
-                '"' => in_string = false,
+                // A lone `"` is text in a `"""` string.
+                '"' if triple_quote || !string.multi => {
+                    if string.multi {
+                        chars.nth(1);
+                    }
+                    open.pop();
+                }
+                '{' if string.interpolated => string.hole_depth = Some(0),
                 _ => {}
             }
             if c == '\n' {
@@ -913,7 +955,7 @@ fn scan_trivia(source: &str) -> Vec<Scanned> {
         }
         match c {
             '\n' => {
-                if line_blank {
+                if line_blank && open.is_empty() {
                     out.push(Scanned::Blank(line_start));
                 }
                 line_start = index + 1;
@@ -932,15 +974,118 @@ fn scan_trivia(source: &str) -> Vec<Scanned> {
                     offset: index,
                     text: source[index..end].trim_end().to_string(),
                     trailing: !line_blank,
+                    in_hole: !open.is_empty(),
                 });
                 line_blank = false;
             }
             '"' => {
-                in_string = true;
+                if triple_quote {
+                    chars.nth(1);
+                }
+                open.push(OpenString {
+                    multi: triple_quote,
+                    interpolated: interpolated.next().unwrap_or(true),
+                    hole_depth: None,
+                });
+                line_blank = false;
+            }
+            // Braces only matter in a hole: the `}` that balances its `{` resumes the string.
+            '{' | '}' => {
+                if let Some(string) = open.last_mut() {
+                    string.hole_depth = match (c, string.hole_depth) {
+                        ('{', depth) => depth.map(|depth| depth + 1),
+                        (_, depth) => depth.and_then(|depth| depth.checked_sub(1)),
+                    };
+                }
                 line_blank = false;
             }
             c if !c.is_whitespace() => line_blank = false,
             _ => {}
+        }
+    }
+    out
+}
+
+/// For each string literal of `program`, in source order: whether it is a string *term*, in which an
+/// unescaped `{` opens an interpolation hole, rather than a string *pattern*, which is text only.
+/// The scanner cannot tell the two apart lexically.
+fn string_kinds(program: &Program) -> Vec<bool> {
+    fn in_match(pattern: &Match, out: &mut Vec<bool>) {
+        match pattern {
+            Match::String(..) => out.push(false),
+            Match::Tuple(tuple) => {
+                for field in &tuple.fields {
+                    in_match(&field.pattern, out);
+                }
+            }
+            Match::Partial(partial) => {
+                for pattern in partial.fields.iter().filter_map(|f| f.pattern.as_ref()) {
+                    in_match(pattern, out);
+                }
+            }
+            Match::Or(alternatives) => {
+                for pattern in alternatives {
+                    in_match(pattern, out);
+                }
+            }
+            _ => {}
+        }
+    }
+    fn in_chain(chain: &Chain, out: &mut Vec<bool>) {
+        if let Some(pattern) = &chain.match_pattern {
+            in_match(pattern, out);
+        }
+        for term in &chain.terms {
+            in_term(term, out);
+        }
+    }
+    fn in_expression(expression: &Expression, out: &mut Vec<bool>) {
+        for branch in &expression.branches {
+            let consequence = branch.consequence.iter().flat_map(|s| &s.chains);
+            for chain in branch.condition.chains.iter().chain(consequence) {
+                in_chain(chain, out);
+            }
+        }
+    }
+    fn in_term(term: &Term, out: &mut Vec<bool>) {
+        match term {
+            Term::String(_, segments) => {
+                out.push(true);
+                for segment in segments {
+                    if let StrSegment::Hole(expression) = segment {
+                        in_expression(expression, out);
+                    }
+                }
+            }
+            Term::Match(pattern) => in_match(pattern, out),
+            Term::Tuple(tuple) => {
+                for field in &tuple.fields {
+                    if let FieldValue::Chain(chain) = &field.value {
+                        in_chain(chain, out);
+                    }
+                }
+            }
+            Term::Block(expression) => in_expression(expression, out),
+            Term::Function(function) => {
+                if let Some(body) = &function.body {
+                    in_expression(body, out);
+                }
+            }
+            Term::Spawn(inner, _) => in_term(inner, out),
+            Term::Select(Some(chains), _) => {
+                for chain in chains {
+                    in_chain(chain, out);
+                }
+            }
+            _ => {}
+        }
+    }
+    let mut out = Vec::new();
+    for statement in &program.statements {
+        if let Statement::Expression(sequence) = statement {
+            for chain in &sequence.chains {
+                in_chain(chain, &mut out);
+            }
         }
     }
     out
